@@ -26,6 +26,10 @@ through giscanner.utils.extract_libtool_shlib; a small end-to-end family drives
 giscanner.shlibs.resolve_shlibs with `cat <listing>` as the ldd wrapper, mixing .la
 requests and plain names.
 
+Several files on one line: space M has lines carrying two or three listed files
+(space / tab separated, or `soname => path (addr)` groups) in every order, alone or with
+a second line; "first listed" is reading order (left to right, then line by line).
+
 Working-directory states: the implementation asks the file system about every
 requested name, so the scratch working directory is part of the alphabet: for each
 requested name it holds nothing, a regular file, a directory, or a symlink to a
@@ -260,6 +264,39 @@ def b_lines(names, tails, dirs, styles, headers, noise):
     return uniq_lines(out)
 
 
+# space M: wrapper output that puts two or three listed files on ONE line.  "First listed"
+# (statement) is reading order: left to right within a line, then line by line.
+M_NAMES = ['foo', 'foo-bar', 'pango']
+M_BASES = ['lib%s.so.%d' % (n, v) for n in M_NAMES for v in (1, 2)]
+M_DECOS = ['space', 'tab', 'arrow']
+
+
+def m_render(deco, bases):
+    if deco == 'space':
+        return ' '.join(bases), tuple(bases)
+    if deco == 'tab':
+        paths = ['/usr/lib/' + b for b in bases]
+        return '\t' + '\t'.join(paths), tuple(paths)
+    if deco == 'arrow':
+        toks = []
+        for b in bases:
+            toks += [b, '/usr/lib/' + b]
+        return '\t' + '  '.join('%s => /usr/lib/%s (0x00007f3a5c000000)' % (b, b) for b in bases), tuple(toks)
+    raise ValueError(deco)
+
+
+def m_lines(decos):
+    out = []
+    for b in M_BASES:
+        out.append(Line(b, (b,), 'file'))
+    for deco in decos:
+        for k in (2, 3):
+            for bases in itertools.permutations(M_BASES, k):
+                text, files = m_render(deco, bases)
+                out.append(Line(text, files, 'file'))
+    return uniq_lines(out)
+
+
 def req_lists(names, maxreq):
     out = []
     for k in range(1, maxreq + 1):
@@ -301,6 +338,8 @@ def build_spaces(tier):
             sp.append(Space('A2:%s/%s' % (s, d), a_lines(s, d, NAMES, TAILS), 0, 2, NAMES, 2))
         nb = ['foo', 'foo-bar', 'pango']
         sp.append(Space('B2', b_lines(nb, B_TAILS, B_DIRS, STYLES, HEADERS, NOISE), 0, 2, nb, 2))
+        for deco in M_DECOS:
+            sp.append(Space('M2:%s' % deco, m_lines([deco]), 0, 2, M_NAMES, 2))
     else:
         for s, d in R_ALL:
             sp.append(Space('A2:%s/%s' % (s, d), a_lines(s, d, NAMES, TAILS), 0, 2, NAMES, 2))
@@ -311,6 +350,7 @@ def build_spaces(tier):
         sp.append(Space('B2', b_lines(nb, B_TAILS, B_DIRS, STYLES, HEADERS, NOISE), 0, 2, nb, 2))
         nb3 = ['foo', 'foo-bar', 'pango']
         sp.append(Space('B3', b_lines(nb3, B3_TAILS, B3_DIRS, ['ldd', 'bare', 'bsd'], HEADERS[:4], NOISE[:4]), 3, 3, nb3, 2))
+        sp.append(Space('M2', m_lines(M_DECOS), 0, 2, M_NAMES, 2))
     # membership masks: a (listing, request list) pair that already belongs to an earlier
     # space is skipped there, so every counted pair is a distinct canonical input
     for k, s in enumerate(sp):
@@ -841,6 +881,7 @@ def run(ctx):
                  'directory / a symlink to a directory of each name x each subset and order of the names listed.',
             bounds={'spaces': [{'tag': s.tag, 'lines': len(s.lines), 'listing_len': [s.minlen, s.maxlen],
                                 'names': s.names, 'max_requests': s.maxreq, 'pairs': s.size()} for s in spaces],
+                    'multi_file_line_bases': M_BASES, 'multi_file_line_decorations': M_DECOS,
                     'names': NAMES, 'tails': TAILS, 'styles': STYLES, 'dirkinds': DIRKINDS,
                     'la_values': len(vals), 'la_layouts': 48, 'la_unspecified_variants': len(LA_VARIANTS) + 2,
                     'e2e_cases': len(e2e), 'fs_names': FS_NAMES, 'fs_states': FS_STATES,
